@@ -12,7 +12,7 @@ SCR=/tmp/mx-$$; mkdir -p $SCR
 worker() {
   i=$1; shift
   WT=/tmp/wt-mx-$i
-  git -C /repo worktree add -q --detach $WT HEAD || return 2
+  [ -d $WT ] || return 2
   mkdir -p $SCR/ev$i $SCR/rp$i
   for id in "$@"; do
     prop=${id%%-*}; d=$BASE/$id
@@ -34,6 +34,9 @@ worker() {
 }
 k=0; declare -a BUCKET
 for id in $IDS; do BUCKET[$((k % N))]="${BUCKET[$((k % N))]} $id"; k=$((k + 1)); done
+# the worktrees are created one after the other (concurrent `git worktree add` calls race on .git/worktrees), then the workers start
+git -C /repo worktree prune
+for i in $(seq 0 $((N - 1))); do git -C /repo worktree add -q --detach /tmp/wt-mx-$i HEAD || { echo "cannot create worktree $i"; exit 2; }; done
 for i in $(seq 0 $((N - 1))); do worker $i ${BUCKET[$i]} & done
 wait
 if [ -z "$KEEP_OLD_ROWS" ]; then echo -e "$HEADER" > $OUTFILE; cat $SCR/rows*.tsv | sort >> $OUTFILE
